@@ -77,8 +77,9 @@ impl<'a> IndexPlanner<'a> {
         };
         if is_temporal {
             // IN operations require checking multiple values, which temporal range indexes can't efficiently handle.
+            // Neq cannot be answered by the temporal indexes at all (a zone holding the value may hold others).
             // Use FullScan and let the condition evaluator filter events.
-            if matches!(operation, Some(CompareOp::In)) {
+            if matches!(operation, Some(CompareOp::In) | Some(CompareOp::Neq)) {
                 return IndexStrategy::FullScan;
             }
             if matches!(operation, Some(CompareOp::Eq)) {
@@ -111,12 +112,15 @@ impl<'a> IndexPlanner<'a> {
             }
         }
 
-        // Equality
-        if kinds.contains(IndexKind::ZONE_XOR_INDEX) {
-            return IndexStrategy::ZoneXorIndex { field };
-        }
-        if kinds.contains(IndexKind::XOR_FIELD_FILTER) {
-            return IndexStrategy::XorPresence { field };
+        // Equality: the XOR filters only answer "may contain value", which is only usable for Eq.
+        // Any other operator (e.g. Neq, or a range without a SuRF) must fall through to FullScan.
+        if matches!(operation, Some(CompareOp::Eq)) {
+            if kinds.contains(IndexKind::ZONE_XOR_INDEX) {
+                return IndexStrategy::ZoneXorIndex { field };
+            }
+            if kinds.contains(IndexKind::XOR_FIELD_FILTER) {
+                return IndexStrategy::XorPresence { field };
+            }
         }
 
         IndexStrategy::FullScan
